@@ -464,6 +464,9 @@ def open_source(form, text, work, rng=None):
         except UnicodeEncodeError:
             form = "bio"
     data = text.encode("utf-8")
+    small = len(data) <= 4096          # byte-at-a-time file objects only for small files
+    if form == "raw" and not small:
+        form = "fh_rb"
     if form == "bio":
         return io.BytesIO(data), name, None, None
     if form == "sio":
@@ -471,10 +474,10 @@ def open_source(form, text, work, rng=None):
     if form in ("lines_b", "lines_s", "lines_mix"):
         return LineSource(text, form[6]), name, None, None
     if form == "buf":
-        return io.BufferedReader(io.BytesIO(data), buffer_size=rnd.choice([1, 2, 7, 16])), name, None, None
+        return io.BufferedReader(io.BytesIO(data), buffer_size=rnd.choice([1, 2, 7, 16] if small else [512, 8192])), name, None, None
     if form == "tw":
         tw = io.TextIOWrapper(io.BytesIO(data), encoding="utf-8", newline="\n")
-        tw._CHUNK_SIZE = rnd.choice([1, 2, 3, 8])
+        tw._CHUNK_SIZE = rnd.choice([1, 2, 3, 8] if small else [64, 8192])
         return tw, name, None, None
     _counter[0] += 1
     path = os.path.join(work, "pf-%d-%d" % (os.getpid(), _counter[0]))
@@ -904,7 +907,7 @@ def make_trace(rng, lib, picker, abstract, form, work, sparse=False, canonical=F
         toks.append({"c": ab["c"], "k": k, "t": t})
     n = len(texts)
     only = None
-    if sparse:
+    if sparse or sum(map(len, texts)) > 20000:
         only = {1, 2, 3, n - 2, n - 1, n} | set(rng.sample(range(1, n + 1), min(n, 12)))
     tr, complaints = record(texts, toks, form, work, rng, only)
     return tr, texts, complaints
